@@ -440,15 +440,26 @@ Section FeatureSpace.
     by apply: fc_ext => i; rewrite mulrC g_x_isq.
   Qed.
 
+  Lemma dmap_sq_isq : dmap (fun x => g_sq tol x * g_isq tol x) S = dmap (g_mk tol) S.
+  Proof. by apply: dmap_ext => i; exact: g_sq_isq. Qed.
+
   Lemma f_reconstruct : X *m f_pxt *m f_ptx = f_U *m dmap (g_mk tol) S *m f_U^T *m X.
   Proof.
-    rewrite f_scores /f_ptx -!mulmxA Vt_Csq !mulmxA -(mulmxA f_U) dmap_mul.
-    by congr (_ *m _ *m _ *m _); apply: dmap_ext => i; exact: g_sq_isq.
+    rewrite f_scores /f_ptx -(mulmxA _ V^T) Vt_Csq.
+    rewrite (mulmxA (f_U *m _)) (mulmxA _ f_U^T X) -(mulmxA f_U) dmap_mul.
+    by rewrite dmap_sq_isq.
   Qed.
+
+  Lemma f_Ut : f_U^T = V^T *m f_A *m X^T.
+  Proof. by rewrite /f_U !trmx_mul [f_A^T]fc_tr mulmxA. Qed.
+
+  Lemma f_pty_alt : f_pty = dmap (g_isq tol) S *m f_U^T *m Y.
+  Proof. by rewrite /f_pty f_Ut !mulmxA. Qed.
 
   Lemma f_predict : X *m f_pxt *m f_pty = f_U *m dmap (g_mk tol) S *m f_U^T *m Y.
   Proof.
-    rewrite f_scores /f_pty /f_U !trmx_mul fc_tr !mulmxA -(mulmxA (X *m f_A *m V)) dmap_mul.
-    by congr (_ *m _ *m _ *m _ *m _ *m _); apply: dmap_ext => i; exact: g_sq_isq.
+    rewrite f_scores f_pty_alt.
+    rewrite (mulmxA (f_U *m _)) (mulmxA (f_U *m _)) -(mulmxA f_U) dmap_mul.
+    by rewrite dmap_sq_isq.
   Qed.
 End FeatureSpace.
